@@ -347,6 +347,19 @@ macro_rules! queue_script {
             let mut bits: Vec<bool> = Vec::new();
             let mut syms: Vec<(usize, SymKind)> = Vec::new(); // (start bit, symbol), only while the stream is all symbols
             let only_symbols = src.bool();
+            if !only_symbols && stop_frac % 4 == 3 {
+                // an encoder that resumes on words which are already there (`QueueEncoder::from_compressed`): it sits at a
+                // word boundary with nothing pending. (No new draws.)
+                let prefix: Vec<$W> = (0..1 + (stop_frac / 4) % 2).map(|i| (stop_frac as u64 * 0x9e37_79b9 + i as u64 * 77) as $W).collect();
+                for w in &prefix {
+                    for b in 0..wbits {
+                        bits.push((*w >> b) & 1 == 1);
+                    }
+                }
+                enc = Enc::from_compressed(prefix.clone());
+                twin = Enc::from_compressed(prefix);
+                ctx.label("queue_encoder_resumed_on_existing_words");
+            }
             let max_ops = if ctx.tier == 0 { 80 } else { 600 };
             let mut ops = 0;
             let to_u64 = |v: &[$W]| -> Vec<u64> { v.iter().map(|&x| x as u64).collect() };
